@@ -477,8 +477,8 @@ class ClassParser(BaseParser):
                 if field.property:
                     try:
                         field.property.fset(
-                            instance, values[key]
-                        )  # call the original setter
+                            instance, value
+                        )  # call the original setter (the value may just have left `values`: no_output)
                         # setattr(instance, field.attname, values[key])
                     except Exception as e:
                         error_option = field.get_on_error(options)
